@@ -483,4 +483,124 @@ theorem creation_order_invariant_renamed {ρ : Nat → Nat} {g g' : GraphVal} {o
     hif hif' he he'
   ⟨h.1, h.2.1⟩
 
+/-! ### non-vacuity, and the counterexample -/
+
+section Examples
+open Wac.Props.C02 (exDiamond exDiamondOrder exDiamondAgg exDiamondSkel exDiamond_wf exDiamond_toposort exDiamond_agg
+  exDiamond_ifaceNamed exDiamond_encode dI10 dI12 exIfaceDep exIfaceDepSkel exIfaceDep_encode cD10 cD12 cU cV)
+
+/-- the diamond: `x:y/i@1.0.0` (wanted by `right`) and `x:y/i@1.2.0` (wanted by `left`) are one class,
+    named for the higher version -/
+example : exDiamondAgg.canonical dI10 = dI12 ∧ className (impliedReqs exDiamond) dI10 = dI12 ∧
+    dI10 ∈ impliedNames exDiamond :=
+  ⟨by decide, by decide, by decide⟩
+
+example : ∀ name ∈ impliedNames exDiamond, exDiamondAgg.canonical name = className (impliedReqs exDiamond) name :=
+  fun name hn => (canonical_is_highest exDiamond_wf exDiamond_toposort exDiamond_agg name hn).1
+
+/-- the implicit arguments recorded for the two instantiations (nodes 3 and 4): different names of
+    one class, one `(kind, index)` -/
+example : ∃ st1, encodeImports exDiamond [] {} = .ok st1 ∧
+    implicitList st1.implicit 3 = [(dI10, .instance, 0)] ∧ implicitList st1.implicit 4 = [(dI12, .instance, 0)] := by
+  refine ⟨(match encodeImports exDiamond [] {} with | .ok s => s | _ => {}), by rfl, by decide, by decide⟩
+
+example : exportItems exDiamondSkel = [(['o', 'u', 't'], .instance)] ∧ impliedExports exDiamond = [(['o', 'u', 't'], .instance)] ∧
+    DefsExported exDiamond ∧ importItems exDiamondSkel = [(dI12, .instance)] := by
+  refine ⟨by decide, by decide, defsExportedCheck_sound (by decide), by decide⟩
+
+example : ∀ x, x ∈ exportItems exDiamondSkel ↔ x ∈ impliedExports exDiamond :=
+  encode_export_names exDiamond_wf (defsExportedCheck_sound (by decide)) exDiamond_encode
+
+example : ∀ r ∈ impliedReqs exDiamond, (canon exDiamond r.name, r.ty.kind) ∈ importItems exDiamondSkel :=
+  encode_imports_complete exDiamond_wf exDiamond_toposort exDiamond_agg exDiamond_ifaceNamed exDiamond_encode
+
+/-- type definitions: `t`, and `u` defined as an alias of `t` (re-exports the index of `t`) -/
+def exDefs : GraphVal :=
+  { pkgs := [],
+    nodes := [{ id := 0, kind := .definition, ty := { kind := .type }, exportName := some ['t'], succ := [1] },
+              { id := 1, kind := .definition, ty := { kind := .type }, exportName := some ['u'], defAlias := some 0,
+                inc := [(.dep, 0)] }],
+    exports := [(['t'], 0), (['u'], 1)] }
+
+example : WF exDefs ∧ DefsExported exDefs ∧
+    encode exDefs {} = .ok [.typeDef, .export ['t'] .type 0, .export ['u'] .type 1] :=
+  ⟨wfCheck_sound (by decide), defsExportedCheck_sound (by decide), by rfl⟩
+
+/-- the diamond with `left` created before `right` (node indices 3 and 4 exchanged) -/
+def swap34 (x : Nat) : Nat := if x = 3 then 4 else if x = 4 then 3 else x
+
+theorem swap34_inj : Function.Injective swap34 := by
+  intro a b h
+  unfold swap34 at h
+  split at h <;> split at h <;> (try split at h) <;> (try split at h) <;> omega
+
+def exDiamond' : GraphVal :=
+  { exDiamond with
+    nodes := match exDiamond.nodes.map (renameNode swap34) with
+      | [a, b, c, d, e, f] => [a, b, c, e, d, f]
+      | l => l }
+
+def exDiamondSkel' : Skeleton :=
+  match encode exDiamond' { define := true } with
+  | .ok s => s
+  | _ => []
+
+theorem exDiamond'_reordered : Reordered swap34 exDiamond exDiamond' :=
+  ⟨swap34_inj, rfl, (((List.Perm.swap _ _ _).cons _).cons _).cons _, by decide⟩
+
+/-- the two creation orders of the diamond emit the two instantiations in different order, and
+    have the same interface -/
+example : exDiamondSkel' ≠ exDiamondSkel ∧
+    (∀ x, x ∈ exportItems exDiamondSkel ↔ x ∈ exportItems exDiamondSkel') ∧
+    importItems exDiamondSkel' = importItems exDiamondSkel :=
+  ⟨by decide,
+   (creation_order_invariant_renamed (o := { define := true }) (order' := [0, 1, 2, 3, 4, 5])
+      (agg' := exDiamondAgg) exDiamond'_reordered exDiamond_wf
+      (wfCheck_sound (by decide)) (defsExportedCheck_sound (by decide)) (defsExportedCheck_sound (by decide))
+      exDiamond_toposort (by decide) exDiamond_agg (by decide) exDiamond_ifaceNamed exDiamond_ifaceNamed
+      exDiamond_encode (by rfl)).1,
+   by decide⟩
+
+/-! #### the full `creation_order_invariant` is false (finding `enc-dependency-interface-shadows-import`)
+
+  `exIfaceDep` (`C02Full.lean`) has `newv` created before `old`; `exIfaceDepA` is the same composition
+  with `old` created first.  The import of the track `dep:t/t@1` is named `dep:t/t@1.2.0` in the one
+  and `dep:t/t@1.0.0` in the other.  Reproduced on the real encoder with the plan given there. -/
+
+def swap01 (x : Nat) : Nat := if x = 0 then 1 else if x = 1 then 0 else x
+
+theorem swap01_inj : Function.Injective swap01 := by
+  intro a b h
+  unfold swap01 at h
+  split at h <;> split at h <;> (try split at h) <;> (try split at h) <;> omega
+
+def exIfaceDepA : GraphVal :=
+  { exIfaceDep with
+    nodes := match exIfaceDep.nodes.map (renameNode swap01) with
+      | [a, b, c] => [b, a, c]
+      | l => l }
+
+def exIfaceDepASkel : Skeleton :=
+  match encode exIfaceDepA { define := true } with
+  | .ok s => s
+  | _ => []
+
+/-- `creation_order_counterexample`: two well-formed graph values that differ by a renaming of
+    node indices, both encoded successfully, with different import names -/
+theorem creation_order_counterexample :
+    Reordered swap01 exIfaceDep exIfaceDepA ∧ WF exIfaceDep ∧ WF exIfaceDepA ∧
+    encode exIfaceDep { define := true } = .ok exIfaceDepSkel ∧
+    encode exIfaceDepA { define := true } = .ok exIfaceDepASkel ∧
+    (importItems exIfaceDepSkel).map (·.1) = [cD12, cV, cU, ['x', 'i', '1']] ∧
+    (importItems exIfaceDepASkel).map (·.1) = [cD10, cU, cV, ['x', 'i', '1']] ∧
+    ¬ (∀ x, x ∈ importItems exIfaceDepSkel ↔ x ∈ importItems exIfaceDepASkel) := by
+  refine ⟨⟨swap01_inj, rfl, List.Perm.swap _ _ _, by decide⟩, wfCheck_sound (by decide), wfCheck_sound (by decide),
+    exIfaceDep_encode, by rfl, by decide, by decide, ?_⟩
+  intro h
+  have := (h (cD12, .instance)).mp (by decide)
+  revert this
+  decide
+
+end Examples
+
 end Wac.Props.C03
